@@ -203,8 +203,12 @@ def gen_cases(rng, tier):
         combos = PB_COMBOS if tier == "thorough" else PB_COMBOS[:1] + rng.sample(PB_COMBOS[1:], 2)
         for rep in range(1 if tier == "quick" else 4):
             for combo in combos:
-                cases.append(gen_pbatch_case(rng, kind, d, rng.choice([1, 2, 2, 3]), rng.choice([2, 4, 4] + ([3, 8] if tier == "thorough" else [])),
-                                             combo, with_ic=rng.random() < 0.6))
+                m_, n_ = rng.choice([1, 2, 2, 3]), rng.choice([2, 4, 4] + ([3, 8] if tier == "thorough" else []))
+                if kind == "ode":
+                    # ODE initial condition under a parameter batch: the number of rows differs from the number of
+                    # components (a sum over the wrong axis shows), and the term is configured, in every run
+                    n_ = 4 if m_ == n_ else n_
+                cases.append(gen_pbatch_case(rng, kind, d, m_, n_, combo, with_ic=(kind == "ode") or rng.random() < 0.6))
     reps = 6 if tier == "quick" else 60
     plan = {"ode": [{"ic"}, {"obs"}, {"ic", "obs"}, {"ic", "obs", "dyn"}],
             "statio": [{"norm"}, {"obs"}, {"norm", "obs"}],
